@@ -42,9 +42,12 @@ func VerifC11Bytes() {
 }
 
 var c11Frags = []string{
-	"x", "1", "1.", "0x", "1e", "'a'", "'a", "\"\"\"a", "b'\\xz'", "(", ")", "[", "]", "{", "}", ",", ":", ".", ";", "=", "==", "+", "*", "**", "-", "@", "->",
-	"\n", "\n ", "\n\t", " ", "\\\n", "\\", "#c", "if", "else", "def", "class", "lambda", "not", "in", "is", "for", "while", "try", "except", "finally", "with", "as",
-	"return", "yield", "raise", "break", "continue", "pass", "global x", "nonlocal x", "import", "from", "del", "assert", "None", "...", "x=1", "f(", "*x", "**x", "1=2", "$", "?", "\x00", "\xff", "\xc3\xa9",
+	// the first 40 are the quick tier's alphabet
+	"x", "1", "1.", "0x", "'a'", "'a", "\"\"\"a", "(", ")", "[", "]", "{", ",", ":", ".", "=", "+", "**", "-",
+	"\n", "\n ", " ", "\\\n", "\\", "#c", "if", "else", "def", "lambda", "not", "for", "return", "f(", "*x", "**x", "1=2", "x=1", "$", "\x00", "\xc3\xa9",
+	// thorough adds
+	"1e", "b'\\xz'", "}", ";", "==", "*", "@", "->", "\n\t", "class", "in", "is", "while", "try", "except", "finally", "with", "as",
+	"yield", "raise", "break", "continue", "pass", "global x", "nonlocal x", "import", "from", "del", "assert", "None", "...", "?", "\xff",
 }
 
 //verif:property C11
@@ -55,6 +58,9 @@ func VerifC11Tokens() {
 	k := 1 + verifChoice("k", verifBound(2, 3))
 	src := ""
 	nf := verifBound(40, len(c11Frags))
+	if k == 3 {
+		nf = 40 // three fragments: the smaller alphabet keeps the product within reach
+	}
 	for i := 0; i < k; i++ {
 		if i > 0 && verifChoice("sp"+string(rune('0'+i)), 2) == 1 {
 			src += " "
